@@ -45,7 +45,11 @@ LEVEL_NOTE = (
     "harnesses; not modelled: switches inside non-"
     "whitelisted code (the search itself works on per-call objects) and "
     "inside C extensions; 'stress runs with a tiny switch interval' from "
-    "the property text are sampling and not used to decide"
+    "the property text are sampling and not used to decide; they are run "
+    "only as a conformance check of the whitelist (60 free-running "
+    "executions per harness, 400 thorough, real uncontrolled threads, "
+    "switch interval 1e-6): a violation there that the exhaustive "
+    "exploration does not show would mean a missing scheduling point"
 )
 RULE = (
     "states = distinct observed outcomes (which thread got which tree / "
@@ -247,7 +251,68 @@ def units(tier, seed):
     us = [("conc", i, tier, seed) for i in range(len(harnesses(tier)))]
     us += [("seq", k, tier, seed) for k in range(len(SEQ_KINDS))]
     us.append(("ident-reuse", 0, tier, seed))
+    # free-running conformance of the scheduler's whitelist: the same harness
+    # bodies on real, uncontrolled threads with a tiny switch interval (a
+    # violation here that the exhaustive exploration does not show would mean
+    # a scheduling point is missing from the whitelist)
+    us += [("freerun", i, tier, seed) for i, h in enumerate(harnesses(tier))
+           if not h[0].endswith("-opcode")]
     return us
+
+
+def work_freerun(idx, tier, seed, res):
+    import sys
+    import threading
+
+    name, kind, plans, _ = harnesses(tier)[idx]
+    root = tempfile.mkdtemp(prefix="verif-c16f-")
+    runs = 60 if tier == "quick" else 400
+    old = sys.getswitchinterval()
+    sys.setswitchinterval(1e-6)
+    try:
+        for it in range(runs):
+            opt = make_optimizer(kind, root)
+            results = [None] * len(plans)
+            errors = [None] * len(plans)
+            barrier = threading.Barrier(len(plans))
+
+            def body(t, plan):
+                try:
+                    barrier.wait()
+                    out = []
+                    for qn in plan:
+                        out.append((qn, opt.search(*QS[qn])))
+                    results[t] = out
+                except BaseException as e:  # noqa
+                    errors[t] = e
+
+            ths = [threading.Thread(target=body, args=(t, p))
+                   for t, p in enumerate(plans)]
+            for th in ths:
+                th.start()
+            for th in ths:
+                th.join(120)
+            bad = []
+            for t, plan in enumerate(plans):
+                if errors[t] is not None:
+                    bad.append((f"thread{t}:raises:" +
+                                type(errors[t]).__name__,
+                                repr(errors[t])[:200]))
+                    continue
+                for qn, tree in results[t] or []:
+                    bad.extend(tree_problems(tree, QS[qn],
+                                             f"thread{t}:{qn}"))
+            res.evals += 1
+            if bad:
+                res.violation(
+                    f"free-run:{kind}:" + bad[0][0].split(":", 1)[-1],
+                    {"harness": name, "free_running": True, "iteration": it},
+                    bad[:3], max_per_unit=1)
+                break
+    finally:
+        sys.setswitchinterval(old)
+        shutil.rmtree(root, ignore_errors=True)
+    res.stat("free-running-conformance-runs", runs)
 
 
 def work_conc(idx, tier, seed, res):
@@ -434,6 +499,8 @@ def work(unit):
         work_conc(idx, tier, seed, res)
     elif kind == "seq":
         work_seq(idx, tier, seed, res)
+    elif kind == "freerun":
+        work_freerun(idx, tier, seed, res)
     else:
         work_ident(tier, seed, res)
     return res
